@@ -48,6 +48,100 @@ class Ctx:
         return quick if self.quick else thorough
 
 
+def run_check(mod, ctx, audit, budget):
+    import pickle
+    import tempfile
+
+    pf = tempfile.mktemp(prefix='vprog_')
+    rf = tempfile.mktemp(prefix='vres_')
+    core.PROGRESS_FILE = pf
+    sys.stdout.flush()
+    sys.stderr.flush()
+    pid = os.fork()
+    if pid == 0:
+        code = 0
+        try:
+            signal.alarm(max(30, budget - 20))
+            try:
+                res = mod.check(ctx)
+            except core.LeanError as e:
+                if audit.build_ok:
+                    traceback.print_exc()
+                    os._exit(4)
+                res = core.Result()
+                res.notes.append(f'driver unavailable because the build is broken: {e}')
+            except BaseException:  # noqa: BLE001
+                res = core.Result()
+                last = None
+                try:
+                    last = json.loads(Path(pf).read_text())
+                except Exception:  # noqa: BLE001
+                    pass
+                res.diverge('the check raised an unexpected exception while driving the real code (behaviour outside what the harness expects)',
+                            last, 'no exception', traceback.format_exc()[-1500:])
+            with open(rf, 'wb') as f:
+                pickle.dump(res, f)
+        except BaseException:  # noqa: BLE001
+            traceback.print_exc()
+            code = 3
+        sys.stdout.flush()
+        sys.stderr.flush()
+        os._exit(code)
+    _, status = os.waitpid(pid, 0)
+    core.PROGRESS_FILE = None
+    res = None
+    if os.path.exists(rf):
+        with open(rf, 'rb') as f:
+            res = pickle.load(f)
+        os.unlink(rf)
+    last = None
+    if os.path.exists(pf):
+        try:
+            last = json.loads(Path(pf).read_text())
+        except Exception:  # noqa: BLE001
+            last = None
+        os.unlink(pf)
+    if os.WIFEXITED(status) and os.WEXITSTATUS(status) == 4:
+        return None
+    if res is None:
+        sig = os.WTERMSIG(status) if os.WIFSIGNALED(status) else None
+        if sig == signal.SIGALRM:
+            print(f'TIMEOUT property={ctx.prop} (exit 2, not a violation)')
+            os._exit(2)
+        res = core.Result()
+        res.evaluations = 1
+        res.violate(f'the process died (signal {sig}, status {status}) while the real code evaluated this case', last,
+                    f'process killed by signal {sig}', 'a value or a library error', where='process crash')
+    return res
+
+
+def forked_search(mod, ctx, res, broken):
+    """failing-input search in a child process (the real code may crash there too)"""
+    import pickle
+    import tempfile
+
+    rf = tempfile.mktemp(prefix='vsearch_')
+    sys.stdout.flush()
+    pid = os.fork()
+    if pid == 0:
+        try:
+            n0 = len(res.violations)
+            mod.search(ctx, res, broken)
+            with open(rf, 'wb') as f:
+                pickle.dump(res.violations[n0:], f)
+        except BaseException:  # noqa: BLE001
+            traceback.print_exc()
+        sys.stdout.flush()
+        os._exit(0)
+    os.waitpid(pid, 0)
+    if os.path.exists(rf):
+        with open(rf, 'rb') as f:
+            out = pickle.load(f)
+        os.unlink(rf)
+        return out
+    return []
+
+
 def selftest() -> int:
     ok, log = core.lean_build([])
     if not ok:
@@ -101,16 +195,12 @@ def main() -> int:
         print('infrastructure failure while building the Lean project (exit 2)')
         return 2
 
-    # 2-4. corpus, correspondence, relations
-    try:
-        res: core.Result = mod.check(ctx)
-    except core.LeanError as e:
-        if audit.build_ok:
-            traceback.print_exc()
-            print('infrastructure failure: Lean driver (exit 2)')
-            return 2
-        res = core.Result()
-        res.notes.append(f'driver unavailable because the build is broken: {e}')
+    # 2-4. corpus, correspondence, relations — in a child process: a crash of the external engine (segfault, abort)
+    # or an unexpected exception of the real code is a finding about the case being evaluated, not the end of the check
+    res = run_check(mod, ctx, audit, budget)
+    if res is None:
+        print('infrastructure failure: Lean driver (exit 2)')
+        return 2
     res.extra_obligations = list(extra_obl) + list(res.extra_obligations)
 
     obligations = list(audit.obligations) + [o['name'] for o in res.extra_obligations]
@@ -163,10 +253,9 @@ def main() -> int:
         lines.append(f"KNOWN-FINDING: property={prop} {f['what_fails']} [{f['id']}] {detail}")
     if (res.divergences or broken) and not res.violations and hasattr(mod, 'search'):
         # something broke: look for a concrete failing input on the real code
-        try:
-            mod.search(ctx, res, broken)
-        except Exception:
-            traceback.print_exc()
+        found = forked_search(mod, ctx, res, broken)
+        if found:
+            res.violations.extend(found)
     for v in res.violations[:5]:
         p = core.write_replay(prop, {'property': prop, 'kind': 'failing-input', **v, 'seed': seed,
                                       'how_to_replay': f'/venv/bin/python harness/vcheck.py {prop} --replay <this file>'})
